@@ -193,7 +193,7 @@ def toQIn (cfg : ECfg) (v : Val) : R QIn :=
       | some h => pure (.html h)
       | none => pure (.other o.strForm o.translation)
     | none => .unsupported "unknown object"
-  | .bool _ | .cint _ | .cstr _ | .list _ | .tuple _ | .excClass _ | .excValue _ _ => do
+  | .bool _ | .cint _ | .cstr _ | .list _ | .tuple _ | .dict _ | .excClass _ | .excValue _ _ => do
     let s ← Val.strOf cfg.tab v
     pure (.other s none)
   | _ => .unsupported "conversion of this value to text"
